@@ -18,8 +18,11 @@ ASSUMED about cenkalti/backoff v4.2.1 (read in retry.go/tries.go/context.go): th
 at most `Max+1` times per `Retry` call, stops at the first success, and a done context makes
 `NextBackOff` return Stop, whereupon `ctx.Err()` is returned.  ASSUMED about gRPC: opening a stream
 and sending the request on a healthy connection succeeds and reaches the server handler; under a
-cancelled context the current stream fails with a status error and a re-opened stream never reaches
-the handler.  Both are what the harness observes on the real interceptor over bufconn.
+cancelled context the current stream's `RecvMsg` (also one that is blocked on a silent stream) fails
+with a status error.  Whether a stream opened under an already cancelled context still reaches the
+server handler is the explicit transport parameter `Cli.reach`; the theorems about cancellation
+assume `reach = false`, which is what the harness observes on the real interceptor over bufconn
+(`seen == seen_at_cancel` on every cancelled case).
 Back-off delays are real time and not modelled.
 -/
 namespace Eru.Rpc.Retry
@@ -49,6 +52,7 @@ structure Cli (μ ρ : Type) where
   rest : List (Stream μ)    -- script not yet consumed
   sent : ρ                  -- `retryStream.sent`
   reqs : List ρ
+  reach : Bool              -- transport: does a stream opened under a cancelled context reach the handler?
   deriving Repr
 
 inductive Recv (μ ρ : Type) where
@@ -67,10 +71,20 @@ def attempt {μ ρ} : Nat → ErrClass → Cli μ ρ → Recv μ ρ
       | m :: _ => .msg m c'
       | [] => if s.fin = .hang then .fail .blocked c' else attempt fuel (endErr s.fin) c'
 
+/-- `RecvMsg` once the caller's context is cancelled (before the call, or while the call is blocked
+on a silent stream).  The current stream fails with a gRPC status error, which is NOT
+`context.Canceled` for `errors.Is`, so a watch stream does enter `backoff.Retry`: the operation runs
+once — `newStream()` under the cancelled context, which reaches the server handler iff `c.reach` —
+and fails; `NextBackOff` then sees the done context and returns Stop, and `ctx.Err()` is returned. -/
+def recvCancelled {μ ρ} (watch : Bool) (c : Cli μ ρ) : Recv μ ρ :=
+  if watch then
+    .fail .ctxCanceled (if c.reach then { c with reqs := c.reqs ++ [c.sent] } else c)
+  else .fail .rpcCanceled c
+
 /-- `RecvMsg` of the stream returned by `NewStreamRetry` (`watch` = method is in `RPCNeedRetry`;
 otherwise the raw gRPC stream is returned and nothing is ever re-opened) -/
 def recvMsg {μ ρ} (watch : Bool) (max : Nat) (cancelled : Bool) (c : Cli μ ρ) : Recv μ ρ :=
-  if cancelled then .fail (if watch then .ctxCanceled else .rpcCanceled) c
+  if cancelled then recvCancelled watch c
   else match c.cur with
   | m :: ms => .msg m { c with cur := ms }
   | [] =>
@@ -96,15 +110,27 @@ def recvLoop {μ ρ} (watch : Bool) (max : Nat) : Option Nat → Nat → Cli μ 
       { r with delivered := m :: r.delivered }
 
 /-- the generated client stub: open the first stream, `SendMsg(req)` (remembered in `sent`) -/
-def start {μ ρ} (script : List (Stream μ)) (req : ρ) : Cli μ ρ :=
+def start {μ ρ} (reach : Bool) (script : List (Stream μ)) (req : ρ) : Cli μ ρ :=
   match script with
-  | [] => { cur := [], curEnd := .err, rest := [], sent := req, reqs := [req] }
-  | s :: r => { cur := s.msgs, curEnd := s.fin, rest := r, sent := req, reqs := [req] }
+  | [] => { cur := [], curEnd := .err, rest := [], sent := req, reqs := [req], reach := reach }
+  | s :: r => { cur := s.msgs, curEnd := s.fin, rest := r, sent := req, reqs := [req], reach := reach }
 
 def totalMsgs {μ} (script : List (Stream μ)) : Nat := (script.map (·.msgs.length)).sum
 
-def runStream {μ ρ} (watch : Bool) (max : Nat) (cancelAfter : Option Nat) (script : List (Stream μ)) (req : ρ) : Run μ ρ :=
-  recvLoop watch max cancelAfter (totalMsgs script + 2) (start script req)
+/-- the caller cancels from another goroutine while `Recv` is blocked on a silent stream -/
+def cancelWhenBlocked {μ ρ} (watch : Bool) (r : Run μ ρ) : Run μ ρ :=
+  if r.err = .blocked then
+    match recvCancelled watch r.final with
+    | .fail e c => { r with err := e, final := c }
+    | .msg _ _ => r
+  else r
+
+/-- a whole call.  `reach`: transport parameter (see `Cli.reach`); `cancelAfter`: the caller cancels
+after that many messages; `cancelBlocked`: the caller cancels once `Recv` blocks. -/
+def runStream {μ ρ} (reach watch : Bool) (max : Nat) (cancelAfter : Option Nat) (cancelBlocked : Bool)
+    (script : List (Stream μ)) (req : ρ) : Run μ ρ :=
+  let r := recvLoop watch max cancelAfter (totalMsgs script + 2) (start reach script req)
+  if cancelBlocked then cancelWhenBlocked watch r else r
 
 /-- `NewUnaryRetry`: `backoff.Retry(invoker, WithMaxRetries(…, Max))`; returns (attempts made, success).
 `outcomes` = what the server answers to the i-th attempt; beyond the list it fails. -/
